@@ -17,7 +17,9 @@
 EXTENDS Integers, FiniteSets, TLC
 
 CONSTANTS Sessions,      \* e.g. {"cli", "acc", "bkl"}: dialled, accepted, still in the accept backlog
-          MaxTraffic     \* datagrams that may still arrive
+          MaxTraffic,    \* datagrams that may still arrive
+          OwnC,          \* the dialled session owns its transport (DialWithOptions / NewConn4(ownConn)): its Close closes it
+          OwnL           \* the listener owns its transport (ListenWithOptions): Listener.Close closes it
 
 VARIABLES die,           \* die[s]: Close has been called on s (or, known finding, never can be: backlog session)
           ppq,           \* ppq[s]: packets waiting in s's post-processing queue
@@ -28,41 +30,50 @@ VARIABLES die,           \* die[s]: Close has been called on s (or, known findin
           ldie,          \* Listener.Close called
           tconn,         \* tconn[x]: transport x ("l", "c") closed
           handed,        \* handed[s]: the application holds s (dialled or returned by Accept)
-          traffic
-lvars == <<die, ppq, ppRunning, updPending, readLoop, monitor, ldie, tconn, handed, traffic>>
+          traffic,
+          armed          \* armed[s]: postProcess' local chDie is s.die (it is set to nil while a backlog is drained after die was seen,
+                         \* and re-armed at the bottom of the branch that handles a packet)
+lvars == <<die, ppq, ppRunning, updPending, readLoop, monitor, ldie, tconn, handed, traffic, armed>>
 
 LInit == /\ die = [s \in Sessions |-> FALSE] /\ ppq = [s \in Sessions |-> 0]
          /\ ppRunning = [s \in Sessions |-> TRUE] /\ updPending = [s \in Sessions |-> TRUE]
          /\ readLoop = TRUE /\ monitor = TRUE /\ ldie = FALSE /\ tconn = [x \in {"l", "c"} |-> FALSE]
-         /\ handed = [s \in Sessions |-> s # "bkl"] /\ traffic = 0
+         /\ handed = [s \in Sessions |-> s # "bkl"] /\ traffic = 0 /\ armed = [s \in Sessions |-> TRUE]
 
 (* the application closes a session it holds *)
 CloseSession(s) == /\ handed[s] /\ ~die[s] /\ die' = [die EXCEPT ![s] = TRUE]
-                   /\ ppq' = [ppq EXCEPT ![s] = @ + 1]          \* Close flushes once more
-                   /\ UNCHANGED <<ppRunning, updPending, readLoop, monitor, ldie, tconn, handed, traffic>>
+                   /\ \E k \in 0..2 : ppq' = [ppq EXCEPT ![s] = @ + k]   \* Close flushes once more (after die is closed: 0..n packets get queued)
+                   /\ tconn' = IF s = "cli" /\ OwnC THEN [tconn EXCEPT !["c"] = TRUE] ELSE tconn
+                   /\ UNCHANGED <<ppRunning, updPending, readLoop, monitor, ldie, handed, traffic, armed>>
 CloseListener == /\ ~ldie /\ ldie' = TRUE
-                 /\ UNCHANGED <<die, ppq, ppRunning, updPending, readLoop, monitor, tconn, handed, traffic>>
+                 /\ tconn' = IF OwnL THEN [tconn EXCEPT !["l"] = TRUE] ELSE tconn
+                 /\ UNCHANGED <<die, ppq, ppRunning, updPending, readLoop, monitor, handed, traffic, armed>>
 CloseTransport(x) == /\ ~tconn[x] /\ tconn' = [tconn EXCEPT ![x] = TRUE]
-                     /\ UNCHANGED <<die, ppq, ppRunning, updPending, readLoop, monitor, ldie, handed, traffic>>
+                     /\ UNCHANGED <<die, ppq, ppRunning, updPending, readLoop, monitor, ldie, handed, traffic, armed>>
 
 (* library steps *)
 Update(s) == /\ updPending[s]
              /\ IF die[s] THEN updPending' = [updPending EXCEPT ![s] = FALSE] /\ ppq' = ppq      \* not re-queued after die
                 ELSE updPending' = updPending /\ ppq' = [ppq EXCEPT ![s] = IF @ < 2 THEN @ + 1 ELSE @]
-             /\ UNCHANGED <<die, ppRunning, readLoop, monitor, ldie, tconn, handed, traffic>>
+             /\ UNCHANGED <<die, ppRunning, readLoop, monitor, ldie, tconn, handed, traffic, armed>>
+(* postProcess: select { case req := <-chPostProcessing: ...; chDie = s.die   case <-chDie: if backlog { chDie = nil } else return } *)
 PostProcess(s) == /\ ppRunning[s]
-                  /\ IF ppq[s] > 0 THEN ppq' = [ppq EXCEPT ![s] = @ - 1] /\ ppRunning' = ppRunning
-                     ELSE die[s] /\ ppRunning' = [ppRunning EXCEPT ![s] = FALSE] /\ ppq' = ppq
+                  /\ \/ /\ ppq[s] > 0 /\ ppq' = [ppq EXCEPT ![s] = @ - 1] /\ armed' = [armed EXCEPT ![s] = TRUE]      \* a packet: handled, chDie re-armed
+                        /\ ppRunning' = ppRunning
+                     \/ /\ armed[s] /\ die[s]                                                                          \* die seen
+                        /\ IF ppq[s] > 0 THEN armed' = [armed EXCEPT ![s] = FALSE] /\ ppRunning' = ppRunning            \* drain the backlog first
+                           ELSE ppRunning' = [ppRunning EXCEPT ![s] = FALSE] /\ armed' = armed
+                        /\ ppq' = ppq
                   /\ UNCHANGED <<die, updPending, readLoop, monitor, ldie, tconn, handed, traffic>>
 ReadLoopStep == /\ readLoop
                 /\ \/ tconn["c"] /\ readLoop' = FALSE /\ traffic' = traffic                      \* ReadFrom fails
                    \/ ~tconn["c"] /\ traffic < MaxTraffic /\ traffic' = traffic + 1
                       /\ readLoop' = ~die["cli"]                                                  \* isClosed() after a datagram
-                /\ UNCHANGED <<die, ppq, ppRunning, updPending, monitor, ldie, tconn, handed>>
+                /\ UNCHANGED <<die, ppq, ppRunning, updPending, monitor, ldie, tconn, handed, armed>>
 MonitorStep == /\ monitor
                /\ \/ tconn["l"] /\ monitor' = FALSE /\ traffic' = traffic
                   \/ ~tconn["l"] /\ traffic < MaxTraffic /\ traffic' = traffic + 1 /\ monitor' = TRUE   \* Listener.Close alone does not stop it
-               /\ UNCHANGED <<die, ppq, ppRunning, updPending, readLoop, ldie, tconn, handed>>
+               /\ UNCHANGED <<die, ppq, ppRunning, updPending, readLoop, ldie, tconn, handed, armed>>
 
 LNext == \/ \E s \in Sessions : CloseSession(s) \/ Update(s) \/ PostProcess(s)
          \/ CloseListener \/ \E x \in {"l", "c"} : CloseTransport(x)
